@@ -168,6 +168,19 @@ def c02_roundtrip(args):
         return 'tree differs: %s -> %s' % (fmt(node), fmt(t2.node))
     if t2.metadata != meta:
         return 'metadata differs'
+    # the same through the public entry points: encode(decode(s)) is the normal-form text of s
+    try:
+        text = penman.format(Tree(node, metadata=dict(meta)))
+        want = penman.format(Tree(exp, metadata=dict(meta)))
+        if penman.parse(text).node != node:
+            return None        # not a text this tree is read back from (C01's domain)
+        out = with_watchdog(lambda: penman.encode(penman.decode(text, model=model), model=model))
+    except Timeout:
+        return 'encode(decode(s)) did not terminate within 5 s'
+    except Exception as e:
+        return 'encode(decode(s)) raised %s: %s' % (type(e).__name__, str(e)[:60])
+    if out != want:
+        return 'encode(decode(s)) is not the normal form of s: %r -> %r' % (text, out)
     return None
 
 
@@ -670,7 +683,15 @@ def c10_cls(args, detail):
 
 
 def run_C10(R):
-    fmts = ['{prefix}{j}', '{prefix}{i}', 'a{i}', '{prefix}_{i}{j}', '{i}{prefix}', 'v{j}', '{prefix}{i}x{j}']
+    # {prefix}, {i}, {j} "in any combination": every ordering of every subset that mentions {i} or {j}
+    # (formats with neither do not terminate once two nodes need a name: finding N4, one witness below),
+    # bare and with literal text around
+    import itertools
+    fmts = ['a{i}', '{prefix}_{i}{j}', 'v{j}', '{prefix}{i}x{j}']
+    for k in (1, 2, 3):
+        for perm in itertools.permutations(['{prefix}', '{i}', '{j}'], k):
+            if '{i}' in perm or '{j}' in perm:
+                fmts.append(''.join(perm))
     for it in range(1500 if R.quick else 30000):
         node = gens.random_tree(R.rnd, maxn=R.rnd.choice([3, 6]), maxd=3,
                                 roles=[':R', ':S', ':R-of', ':op1'],
@@ -809,6 +830,18 @@ def gen_graph(rnd, aligned=False):
             ts.append((s, rnd.choice([':polarity', ':quant', ':mod', ':op1', ':value', ':loc']),
                        rnd.choice(['-', '1', '"s"', 'imperative', '0'])))
     ts = list(dict.fromkeys(ts))
+    if rnd.random() < 0.3:
+        # a reified relation written by hand: the node, its source edge and its target edge, as the
+        # AMR table defines them (what dereify_edges collapses)
+        table = {':mod': ('have-mod-91', ':ARG1', ':ARG2'), ':location': ('be-located-at-91', ':ARG1', ':ARG2')}
+        cands = [t for t in ts if t[1] in table and t[0] != t[2]]
+        if cands:
+            s_, r, t_ = rnd.choice(cands)
+            c, sr, tr = table[r]
+            x = rnd.choice(['r0', '_', 'x9'])
+            if x not in vs:
+                i = ts.index((s_, r, t_))
+                ts[i:i + 1] = [(x, ':instance', c), (x, sr, s_), (x, tr, t_)]
     rnd.shuffle(ts)
     return ts, rnd.choice(vs)
 
